@@ -58,9 +58,12 @@ Proof. vm_compute. split; reflexivity. Qed.
 
 (** ** Session level.  [valid] = the backend's own check of a value, [bdef] = its session
     defaults, [hb] = what pool.rs has_broken answers for a connection returned without
-    check-in, [session c] = client c's pool is in session mode (the server is kept from the
+    check-in, [bdefs s] = the session defaults and read-only reports of the backend behind
+    server connection s (servers of a pool - primary, replicas - and even connections of one
+    server may differ in tracked defaults and in server_version, in_hot_standby, ...), [psrc] =
+    the connection whose reports became the pool's snapshot, [session c] = client c's pool is in session mode (the server is kept from the
     first message until the client leaves) - any assignment of modes to clients, so both
-    transaction-mode and session-mode pools (and mixtures) are covered.  All four are
+    transaction-mode and session-mode pools (and mixtures) are covered.  All of them are
     arbitrary; the hypotheses are stated. *)
 
 (** Before each of a client's messages reaches a server connection, that connection's values of
@@ -68,24 +71,24 @@ Proof. vm_compute. split; reflexivity. Qed.
     (any statements, any values), disconnects and aborted client tasks, any number of clients
     and server connections.  Needs: every tracked startup value is one the backend accepts
     ([startup_valid], see [c12_invalid_startup_refuted]) and C02's hand-off rule ([hb]). *)
-Theorem c12_synced_before_statement : forall valid bdef hb session,
-  bdef_ok valid bdef = true -> (forall p, is_unclean p = true -> hb p = true) ->
+Theorem c12_synced_before_statement : forall valid bdefs psrc hb session,
+  (forall s, bdef_ok valid (bdefs s) = true) -> (forall p, is_unclean p = true -> hb p = true) ->
   forall ops, startup_valid valid ops = true ->
   forall c s co dk bv cv evv,
-    In (EvStmt c s co dk bv cv evv) (w_log (run valid bdef hb session ops)) -> bv = cv.
+    In (EvStmt c s co dk bv cv evv) (w_log (run valid bdefs psrc hb session ops)) -> bv = cv.
 Proof. exact synced_before_statement. Qed.
 Print Assumptions c12_synced_before_statement.
 
 (** The ParameterStatus frames sent at startup are the client's map, and every later forwarded
     frame keeps "what the client was told" equal to the client's map on the tracked keys. *)
-Theorem c12_client_told_same : forall valid bdef hb session,
-  bdef_ok valid bdef = true -> (forall p, is_unclean p = true -> hb p = true) ->
+Theorem c12_client_told_same : forall valid bdefs psrc hb session,
+  (forall s, bdef_ok valid (bdefs s) = true) -> (forall p, is_unclean p = true -> hb p = true) ->
   (forall w c raw ps, w_cli w c = None -> startup_decode raw = Some ps ->
-     exists cl, w_cli (step valid bdef hb session w (OConnect c raw)) c = Some cl /\ c_told cl = c_map cl /\
-                c_map cl = set_from_list (pool bdef) ps false /\
-                w_log (step valid bdef hb session w (OConnect c raw)) = EvTold c (c_map cl) :: w_log w) /\
+     exists cl, w_cli (step valid bdefs psrc hb session w (OConnect c raw)) c = Some cl /\ c_told cl = c_map cl /\
+                c_map cl = set_from_list (wpool bdefs psrc) ps false /\
+                w_log (step valid bdefs psrc hb session w (OConnect c raw)) = EvTold c (c_map cl) :: w_log w) /\
   (forall ops, startup_valid valid ops = true ->
-     forall c cl, w_cli (run valid bdef hb session ops) c = Some cl ->
+     forall c cl, w_cli (run valid bdefs psrc hb session ops) c = Some cl ->
      forall k, tracked k = true -> pget k (c_map cl) = pget k (c_told cl)).
 Proof. exact told_same_all. Qed.
 Print Assumptions c12_client_told_same.
@@ -94,16 +97,16 @@ Print Assumptions c12_client_told_same.
     terminating empty name; names resolved ignoring case as PostgreSQL does; values as sent:
     empty, non-ASCII ...), then the server's reports - for every history, no guard (the guards
     that findings D1-D3 needed are gone with repairs 5c1953d and 68af9b4). *)
-Theorem c12_established : forall valid bdef hb session ops,
+Theorem c12_established : forall valid bdefs psrc hb session ops,
   forall c s co dk bv cv evv,
-    In (EvStmt c s co dk bv cv evv) (w_log (run valid bdef hb session ops)) -> cv = evv.
+    In (EvStmt c s co dk bv cv evv) (w_log (run valid bdefs psrc hb session ops)) -> cv = evv.
 Proof. exact established. Qed.
 Print Assumptions c12_established.
 
 (** No cross-client visibility, part 1: nothing another client does touches a client's map, the
     record of what it was told, or what it established. *)
-Theorem c12_no_cross_client_frame : forall valid bdef hb session w o c,
-  op_client o <> c -> w_cli (step valid bdef hb session w o) c = w_cli w c.
+Theorem c12_no_cross_client_frame : forall valid bdefs psrc hb session w o c,
+  op_client o <> c -> w_cli (step valid bdefs psrc hb session w o) c = w_cli w c.
 Proof. exact step_frame. Qed.
 Print Assumptions c12_no_cross_client_frame.
 
@@ -111,12 +114,12 @@ Print Assumptions c12_no_cross_client_frame.
     after a checkout) its tracked values are that client's own (by sync) and no untracked GUC
     is off its default (by RESET ALL at check-in), given C02's hand-off rule [hb] and the
     property's scope (no SET of an untracked GUC inside a transaction block: [w_oos]). *)
-Theorem c12_no_cross_client : forall valid bdef hb session,
-  bdef_ok valid bdef = true -> (forall p, is_unclean p = true -> hb p = true) ->
+Theorem c12_no_cross_client : forall valid bdefs psrc hb session,
+  (forall s, bdef_ok valid (bdefs s) = true) -> (forall p, is_unclean p = true -> hb p = true) ->
   forall ops, startup_valid valid ops = true ->
   forall c s dk bv cv evv,
-    In (EvStmt c s true dk bv cv evv) (w_log (run valid bdef hb session ops)) ->
-    bv = cv /\ (w_oos (run valid bdef hb session ops) = false -> dk = []).
+    In (EvStmt c s true dk bv cv evv) (w_log (run valid bdefs psrc hb session ops)) ->
+    bv = cv /\ (w_oos (run valid bdefs psrc hb session ops) = false -> dk = []).
 Proof. exact no_cross_client. Qed.
 Print Assumptions c12_no_cross_client.
 
@@ -141,7 +144,7 @@ Example c12_nonvacuous :
   count_stmts (run_mock ops_good) = 9%nat /\
   stmt_mismatch (run_mock ops_good) = false /\ est_mismatch (run_mock ops_good) = false /\
   dirty_handoff (run_mock ops_good) = false /\
-  w_oos (run marker_valid MOCK_DEF is_unclean no_session ops_good) = false.
+  w_oos (run marker_valid (fun _ => MOCK_DEF) 0 is_unclean no_session ops_good) = false.
 Proof. vm_compute. repeat split; reflexivity. Qed.
 
 (** session mode: one checkout (with sync) at the first message, the server is kept across
@@ -167,6 +170,33 @@ Example c12_session_mode_nonvacuous :
                     | _ => false end) (run_mock_s ops_sess) = true /\
   (* in transaction mode the same operations check out five times *)
   count_stmts (run_mock ops_sess) = 6%nat.
+Proof. vm_compute. repeat split; reflexivity. Qed.
+
+(** heterogeneous servers: connection 0 = primary (TimeZone default Europe/Berlin, server_version 15.3),
+    connection 1 = replica (DateStyle default SQL, DMY, in_hot_standby on, server_version 14.9), the pool's
+    snapshot comes from the replica.  Every SET batch consists of tracked keys only, the client's values are
+    in effect on both, and RESET ALL brings each connection back to ITS OWN defaults. *)
+Definition DEF_A : pmap := pset (B "server_version") (B "15.3") (pset K_tz (B "Europe/Berlin") MOCK_DEF).
+Definition DEF_B : pmap :=
+  pset (B "in_hot_standby") (B "on") (pset (B "server_version") (B "14.9") (pset K_date (B "SQL, DMY") MOCK_DEF)).
+Definition het_defs : list (nat * pmap) := [(0%nat, DEF_A); (1%nat, DEF_B)].
+Definition ops_het : list op :=
+  [OConnect 0 [u; (K_app, B "app'a"); (K_tz, B "Europe/Paris")]; OConnect 1 [u];
+   OQuery 0 0 q1; OQuery 0 1 q1; OQuery 1 0 q1; OQuery 1 1 q1;
+   OQuery 0 0 [SSet false (B "statement_timeout") (B "5")]; OQuery 1 0 q1; OQuery 0 1 q1; OQuery 1 1 q1].
+Example c12_heterogeneous_servers :
+  bdef_ok marker_valid DEF_A = true /\ bdef_ok marker_valid DEF_B = true /\
+  count_stmts (run_het het_defs 1 false ops_het) = 8%nat /\
+  stmt_mismatch (run_het het_defs 1 false ops_het) = false /\ est_mismatch (run_het het_defs 1 false ops_het) = false /\
+  dirty_handoff (run_het het_defs 1 false ops_het) = false /\
+  forallb (fun e => match e with EvSync _ _ d => forallb (fun kv => tracked (fst kv)) d | _ => true end)
+          (run_het het_defs 1 false ops_het) = true /\
+  (* client 1 sent no parameter: it runs with the snapshot's DateStyle on the primary too, not with Berlin time *)
+  existsb (fun e => match e with
+                    | EvStmt 1 0 _ _ bv _ _ => opt_beq (nth 1 bv None) (Some (B "SQL, DMY")) && opt_beq (nth 2 bv None) (Some (B "Etc/UTC"))
+                    | _ => false end) (run_het het_defs 1 false ops_het) = true /\
+  existsb (fun e => match e with EvSync 1 0 d => beq (snd (hd ([], []) d)) (B "SQL, DMY") | _ => false end)
+          (run_het het_defs 1 false ops_het) = true.
 Proof. vm_compute. repeat split; reflexivity. Qed.
 
 (** D-invalid: a client whose startup packet carries a value the backend refuses for ONE tracked
@@ -233,7 +263,7 @@ Definition ops_abort : list op :=
    OQuery 1 0 q1].
 Example c12_hb_needed_refuted :
   startup_valid marker_valid ops_abort = true /\
-  stmt_mismatch (rev (w_log (run marker_valid MOCK_DEF (fun _ => false) no_session ops_abort))) = true /\
+  stmt_mismatch (rev (w_log (run marker_valid (fun _ => MOCK_DEF) 0 (fun _ => false) no_session ops_abort))) = true /\
   stmt_mismatch (run_mock ops_abort) = false.
 Proof. vm_compute. repeat split; reflexivity. Qed.
 
@@ -242,8 +272,8 @@ Definition ops_abort2 : list op :=
    OQuery 0 0 [SSet false (B "statement_timeout") (B "5"); SBegin]; OAbort 0;
    OQuery 1 0 [SCommit]; OQuery 1 0 q1].
 Example c12_hb_needed_untracked_refuted :
-  w_oos (run marker_valid MOCK_DEF (fun _ => false) no_session ops_abort2) = false /\
-  dirty_handoff (rev (w_log (run marker_valid MOCK_DEF (fun _ => false) no_session ops_abort2))) = true /\
+  w_oos (run marker_valid (fun _ => MOCK_DEF) 0 (fun _ => false) no_session ops_abort2) = false /\
+  dirty_handoff (rev (w_log (run marker_valid (fun _ => MOCK_DEF) 0 (fun _ => false) no_session ops_abort2))) = true /\
   dirty_handoff (run_mock ops_abort2) = false.
 Proof. vm_compute. repeat split; reflexivity. Qed.
 
@@ -255,7 +285,7 @@ Definition ops_oos : list op :=
    OQuery 0 0 [SBegin]; OQuery 0 0 [SSet false (B "statement_timeout") (B "5")]; OQuery 0 0 [SCommit];
    OQuery 1 0 q1].
 Example c12_scope_guard_needed :
-  w_oos (run marker_valid MOCK_DEF is_unclean no_session ops_oos) = true /\ dirty_handoff (run_mock ops_oos) = true /\
+  w_oos (run marker_valid (fun _ => MOCK_DEF) 0 is_unclean no_session ops_oos) = true /\ dirty_handoff (run_mock ops_oos) = true /\
   stmt_mismatch (run_mock ops_oos) = false.
 Proof. vm_compute. repeat split; reflexivity. Qed.
 
@@ -265,5 +295,5 @@ Definition ops_f18 : list op :=
    OQuery 0 0 [SBegin]; OQuery 0 0 [SCommit; SSet false (B "statement_timeout") (B "5")];
    OQuery 1 0 q1].
 Example c12_commit_then_set_is_cleaned :
-  w_oos (run marker_valid MOCK_DEF is_unclean no_session ops_f18) = false /\ dirty_handoff (run_mock ops_f18) = false.
+  w_oos (run marker_valid (fun _ => MOCK_DEF) 0 is_unclean no_session ops_f18) = false /\ dirty_handoff (run_mock ops_f18) = false.
 Proof. vm_compute. split; reflexivity. Qed.
